@@ -114,6 +114,36 @@ claim('C01', 'bfs+sched',
       'E2: events are SSO acceptance (POST / Redirect), injected pending records (4 bindings x consumer URL registered / empty, optionally reusing the first session\'s request ID and RelayState), completion of any session, callback of any session with the id in 7 placements (GET query, POST body, body and query naming different sessions, two values, header only, padded, upper-cased) plus unknown / empty / absent id, and arming a one-shot failure of user-info, entity or signing-key retrieval (error, key without certificate, garbage certificate, zero key, certificate of another key, private key of another certificate). BFS to depth 5 with <= 2 sessions (quick) / depth 6 with <= 3 sessions (thorough); every transition incl. self-loops is executed on the real handler and judged: Success only for a named, existing session whose completion preceded the Done() read and whose user is the subject; every other reply carries no NameID, AttributeValue, SignatureValue, Signature parameter or user marker, and user info is never fetched before the gate. A hidden-state pass extends every state by callback(k) ; callback(any). E3 (statement granularity): callback(i) || complete(i) with unbounded preemptions on both bindings, callback(i) || callback(j) || complete(j) at preemption bound 2 / 3 (function-entry granularity) and 1 / 2 (statement granularity), two callbacks of one user (one pending, one done) at bound 2; Success additionally requires the completion event to precede that thread\'s Done() read in the recorded total order.',
       'Sessions <= 2-3, depth <= 5-6; the canonical state key abstracts request IDs / RelayState to "reuses the first session\'s values or not".', '§5 C01')
 
+# ---- additions of the third session (appended to the claim texts; DESIGN.md section 12) ------------------------------------
+CONC = (' Concurrent part (controlled scheduler, scheduling points before every statement of every repository function, one fresh provider per '
+        'schedule, every interleaving within preemption bound 1 quick / 2 thorough, each scenario in its own process with a replay-determinism self-check): ')
+EXTRA = {
+ 'C01': ' Hidden-state pass also extends every state by callback(k) ; arm(one storage failure: 13 operation/kind pairs) ; callback(j). Failure kinds include an error returned together with a usable value.',
+ 'C02': ' D: for every k<=2 shape, request ; SP A unregistered / re-registered with other consumer endpoints (optionally with a failing service-provider lookup at or before the next request) ; same request - the second request is judged against the registration in force then; the same for logout (SLO list replaced / SP removed).' + CONC + '15 pairs of callbacks over five stored requests of two service providers and two tenants (same request id reused, pending, unknown id), each reply must use exactly ITS stored pair.',
+ 'C03': ' Histories also with the earlier callback REFUSED because one storage operation failed (10 operation/failure kinds incl. a user-info lookup failing after some setters ran) x 13 user shapes.' + CONC + '15 pairs of callbacks over five stored requests (two SPs, two tenants, both bindings, a reused request id); every Success reply is compared field by field with the reference record of ITS session and no two concurrent replies share a message id.',
+ 'C04': ' Histories on one provider: an earlier signed reply, optionally a rotation of the response key in storage, then the key lookup of the judged callback / attribute query failing in 6 ways - whatever is still emitted as Success must verify under the certificate published at that time.' + CONC + '15 callback pairs; every Success reply must verify under the published certificate.',
+ 'C05': CONC + '57 pairs out of 9 request kinds of one SP (genuine redirect-signed / enveloped-signed, five forgeries, unsigned) with and without a signing requirement: every reply judged by the sequential oracle on the storage calls made for that request, and a genuine request is never refused because of its neighbour.',
+ 'C06': ' Two-host histories also with the signing-key lookup of the judged request failing in 5 ways.' + CONC + '66 pairs out of 11 request kinds on a provider with a host-derived issuer (valid on two hosts, Destination of the other host, foreign Destination, expired, not yet valid, unregistered issuer, no ID, unknown encoding, ill-formed).',
+ 'C07': CONC + '45 pairs out of 9 conformant requests on a provider with a host-derived issuer and two tenants (AuthnRequest Redirect / signed Redirect / signed POST, LogoutRequest POST / Redirect, AttributeQuery plain / signed, metadata fetch): each must get its positive outcome in every interleaving.',
+ 'C08': ' ACS shapes include white-space-padded and case-changed binding URIs and a padded location; storage answers include an error returned together with a record object.' + CONC + '28 pairs out of 7 SSO requests (same request sent twice, two SPs using the same request id, accepted x rejected): per request the outcome dichotomy on ITS storage calls, the persisted record carries its own relay state and application, stored records = requests sent to login.',
+ 'C09': ' Plus every endpoint scenario (26, shared with C10) x every storage call it makes x every failure kind of that operation, on a fresh provider and after a successful request (no panic whatever storage answers).',
+ 'C10': ' Failure kinds include an error returned together with the value a healthy call would have returned.' + CONC + 'every scenario twice at the same time while each storage operation it uses fails once (the failure hits whichever request gets there first; that request must fail closed, judged on the failures recorded in ITS calls).',
+ 'C11': ' Dimension "outage": after another tenant fetched the metadata, the signing-key lookup of the next metadata request fails (5 kinds), also after a key rotation: a document that is still served must be THIS host\'s document and must not publish a rotated-out key.',
+ 'C12': CONC + '36 pairs out of 8 attribute queries with the SAME query id (two requesters, two subjects, different attribute lists, unregistered requester, forged signature, foreign Destination, unknown subject), each reply judged by the sequential disclosure model on its own storage calls.',
+ 'C13': ' Registration-change histories in 7 modes: SP unregistered and / or the next service-provider lookup failing with a plain, deadline or cancellation error.' + CONC + '36 pairs out of 8 logout requests (three SPs, two tenants, expired, issued in the future, unregistered, undecodable) with the same request id.',
+ 'C14': ' Plus one storage operation failing (signing-key lookup error / nil record, service-provider lookup, persist) while the largest payload is served, on a fresh process and after an earlier request.',
+ 'C16': ' End-to-end part also with the first CreateAuthRequest call failing (plain / deadline / cancellation error): every pair handed to storage and the target of the error reply must still be the documented choice.',
+ 'C17': CONC + '7 pairs of auto-submit pages rendered at the same time (callback success / failure, logout, SSO late error) with different metacharacter-laden RelayState and URL values: each page is the fixed template around exactly its own values.',
+ 'C19': ' Plus 1 296 derivation cases observed on the metadata served after ANOTHER tenant\'s metadata request while the signing-key lookup fails (4 kinds): a served document carries the issuer derived from this request.',
+ 'C20': ' Every chain of length <= 3 containing a failing logic step is run again with 12 other error values (context.Canceled / DeadlineExceeded plain and wrapped, io / os / net / http sentinel errors, an error with empty text, joined errors).',
+}
+for k, v in EXTRA.items():
+    C[k]['text'] += v
+for k in ('C02', 'C03', 'C04', 'C05', 'C06', 'C07', 'C08', 'C12', 'C17'):
+    if 'sched' not in C[k]['engine']:
+        C[k]['engine'] += '+sched'
+        C[k]['technique'] += '; plus stateless exploration of concurrent request pairs under the controlled scheduler (preemption-bounded DFS over schedules), judged by the same oracle'
+
 NOT_YET = {i: 'check not built yet in this revision (planned: see DESIGN.md §5 %s); not claimed until its machinery exists' % i for i in ids}
 
 def main():
